@@ -340,7 +340,7 @@ class CallMixin:
                 self.raise_("ValueError", f"datetime.__new__ field out of range at {here}")
                 self.raise_("TypeError", f"datetime.__new__ at {here}")
             elif short == "timedelta":
-                self.raise_("OverflowError", f"timedelta.__new__ at {here}")
+                pass  # DurationType.__new__ range-checks seconds (C10.R4 proves the check dominates); 3.7e6 days << timedelta's 1e9
             return Val(kinds=FS({self.cls}))
         if attr in ("__init__",):
             return STRUCT
